@@ -1864,6 +1864,19 @@ def _d_pop(eng, st, recv, args, kwargs):
     return dict_pop(eng, st, recv, args[0], None, raise_missing=True)
 
 
+@bf("dict.update")
+def _d_update(eng, st, recv, args, kwargs):
+    """d.update(other) for a closed dict `other` whose items are certainly present"""
+    if len(args) != 1 or kwargs or not isinstance(args[0], R) or st.obj(args[0]).kind != "dict":
+        raise OutOfSubset("dict.update with this argument shape")
+    o = st.obj(args[0])
+    if o.meta.get("open") or not all(z3.is_true(it[2]) for it in o.items):
+        raise OutOfSubset("dict.update from a dict with uncertain items")
+    for k, v, _ in list(o.items):
+        dict_set(eng, st, recv, k, v)
+    return eng.ok(st, NONE)
+
+
 @bf("dict.items")
 def _d_items(eng, st, recv, args, kwargs):
     o = st.obj(recv)
